@@ -72,10 +72,13 @@ def gen(rng):
             u = rng.choice(tn)
             fs.append(("r%d" % j, rng.choice([u, u, "[%s]" % u]), None))
         names[t] = fs
+    # object-literal defaults only "downhill" in a random rank: no default needs its own type's field list again (finding S1b:
+    # RecursionError, the other half of such documents otherwise); REFERENCES stay arbitrary, so the types are still recursive
+    rank = {t: i for i, t in enumerate(rng.sample(tn, k))}
     for t in tn:
         fs = []
         for (fn, ft, d) in names[t]:
-            if ft != "Int" and rng.random() < 0.3:
+            if ft != "Int" and rank[ft.strip("[]!")] < rank[t] and rng.random() < 0.6:
                 d = _lit(rng, names, names[ft.strip("[]!")], 2)
                 if ft.startswith("["):
                     d = "[%s]" % d
